@@ -15,12 +15,14 @@ import (
 	"time"
 
 	"verif/internal/c14"
+	"verif/internal/c20"
 	"verif/internal/core"
 	"verif/internal/evid"
 )
 
 var checks = map[string]core.CheckFunc{
 	"C14": c14.Run,
+	"C20": c20.Run,
 }
 
 func usage() {
